@@ -251,7 +251,8 @@ def finding_of_value(k, name, stored):
             return 'C15-list-element-separator'
     if k == 'normalized':
         w = wrap_width(name)
-        ser = stored.encode('unicode_escape').decode()
+        quoted = bool(stored) and stored[0] == stored[-1] and stored[0] in '\'"'      # String._needsQuoting (blank ends cannot occur here)
+        ser = (repr(stored) if quoted else stored).encode('unicode_escape').decode()
         if w <= 0:
             return 'C15-normalized-wrap'
         if len(ser) > w and (any(len(x) > w for x in ser.split(' ')) or '-' in ser):
@@ -432,9 +433,16 @@ def stream_values(I, R, r, nbatches, per_batch):
                         outcome = 'value line missing from the file (write raised: %s)' % (write_exc[:1],)
                 except reg.InvalidRegistryValue as e:
                     outcome = 'reload rejected the stored text: %s' % e
+            collateral = ()
+            if outcome is not None and fid is None and cache is not None and any(finding_of_value(k_, 'vt.' + n_, st_) for (k_, n_, _, _, st_, _, _) in items):
+                # another value of this file is in a known-finding class (a wrapped NormalizedString can end in a
+                # dangling continuation and swallow the next line): is this value at fault when saved alone?
+                st1, after1, _ = reload_value(I, k, name, set(v) if k.endswith('Set') else v)
+                if after1 == st1:
+                    outcome = None; collateral = ('collateral-of-finding',)
             c = Case(dict(inp, op='roundtrip', stored=stored), oracle_ok=(outcome is None), kind='value', finding=fid,
                      oracle_msg='' if outcome is None else 'value %r of %s saved as %r: %s' % (stored, k, [l for l in lines if l.startswith(full + ':')][:1], outcome),
-                     tags=('roundtrip-' + k,) + (('in-finding-class',) if fid else ()))
+                     tags=('roundtrip-' + k,) + (('in-finding-class',) if fid else ()) + collateral)
             R.add_oracle(c)
             # the cached text through set(): model vs implementation
             if cache is not None and not k.endswith('Set'):
@@ -1010,6 +1018,8 @@ def stream_tree(I, R, r, n_hist, maxops=14):
                 if not dead:
                     snapshot()
             fid = (risky or _hist_risky(k, T, ops)) if k in LIST_CLASSES else None
+            if k == 'normalized' and any(o[0] in ('set', 'setv') and len(o[2]) > 30 for o in ops):
+                fid = 'C15-normalized-wrap'      # a text long enough to be wrapped under the longest child name
             c = Case({'op': 'tree', 'class': k, 'kind': kind, 'default': default, 'ops': ops}, impl='\n'.join(impl),
                      oracle_ok=not fails, oracle_msg='; '.join(fails[:3]), kind='tree', tags=sorted(tags), finding=fid if fails else None)
             R.add_multi(c, lines, tree_post)
